@@ -102,6 +102,10 @@ Judge(o) ==
                   IN (IF t.k # ExpKind(exp, t.p, env) THEN { F("drift", "object-kind", t.k, t.p) } ELSE {})
                 \cup (IF t.k # "A" /\ ~W /\ AnyOK(t)
                       THEN { F("viol", "ro-accepts-write", k, t.p) } ELSE {})
+                  \* a declared read-only object that is not even there, at a place where the program can
+                  \* create one of its own (k = "A": the probe tried mkdir / create at the path itself)
+                \cup (IF t.k = "A" /\ Lookup(exp, t.p, env).t # "none" /\ ~W /\ AnyOK(t)
+                      THEN { F("viol", "ro-path-absent-and-creatable", k, t.p) } ELSE {})
                 \cup (IF t.k # "A" /\ W /\ ~PrimOK(t) /\ ~IsMaskPath THEN { F("drift", "rw-rejects-write", k, t.p) } ELSE {})
                   \* kernel truth: statvfs, mountinfo and behaviour must tell the same story
                   \* (what sits at a masked path when the mask is missing may refuse writes for its own reasons:
